@@ -6,6 +6,7 @@ Each theorem follows from the theorem about the hand-written model and the prove
 translated default method with the hand-written one (Midi/Proofs/GenShort.lean).
 -/
 import Midi.Proofs.GenShort
+import Midi.Props.C01
 import Midi.Props.C02
 import Midi.Props.C03
 import Midi.Props.C06
@@ -63,6 +64,33 @@ theorem conversions {β : Type} (F : Factory β) :
   · rw [FD.from_other]; rfl
 
 end
+
+/-- C01 for the translated `from_bytes`: for EVERY implementation of the factory it succeeds exactly when the status
+    byte is at least 0x80, and then hands the bytes unchanged to `from_bytes_unchecked` -/
+theorem from_bytes_iff {β : Type} (F : Factory β) (b : Bytes) (h : b.InRange) :
+    ShortMessageFactory.from_bytes F b = if 128 ≤ b.status then (F.ofBytesUnchecked b).map some else .ok none := by
+  rw [FD.from_bytes]; exact C01.fromBytes_iff F b h
+
+/-- C01 for the translated time-code quarter-frame conversions (`From<TimeCodeQuarterFrame> for U7` and back): every
+    valid frame encodes to a 7-bit value that decodes to the same frame; every 7-bit value decodes without panic -/
+theorem qf_codec (f : QFrame) (hf : f.Valid) :
+    ∃ d, ShortMsg.U7.from_ f = .ok d ∧ d < 128 ∧ ShortMsg.TimeCodeQuarterFrame.from_ d = .ok f := by
+  refine ⟨f.toU7, QF.to_u7 f, (C01.qf_codec f hf).1, ?_⟩
+  rw [QF.of_u7]; exact (C01.qf_codec f hf).2
+
+theorem qf_decode_total (d : Nat) (h : d < 128) :
+    ∃ f, ShortMsg.TimeCodeQuarterFrame.from_ d = .ok f ∧ f.Valid := by
+  obtain ⟨f, h1, h2, _⟩ := C01.qf_codec' d h
+  exact ⟨f, by rw [QF.of_u7]; exact h1, h2⟩
+
+/-- C02 for the translated `extract_type_from_status_byte`: a type exists exactly for status bytes >= 0x80 and is the
+    one of the MIDI table -/
+theorem extract_type (s : Nat) (hs : s < 256) :
+    ShortMsg.extract_type_from_status_byte s = .ok (if 128 ≤ s then some (specType s) else none) := by
+  rw [QF.extract_type]
+  by_cases h : 128 ≤ s
+  · rw [if_pos h]; exact extractType_valid s h hs
+  · rw [if_neg h]; exact extractType_invalid s (by omega)
 
 /-- C06 for the translated generic constructors: they panic exactly when the type is not of the category and
     otherwise pass type, channel and data bytes on unchanged -/
